@@ -1,7 +1,7 @@
 (* Correspondence evaluators for document-sequence cases (parser state, rendered bytes) and
    the boolean oracles applied to the implementation's outputs. vm_compute only. *)
 From XSG.Model Require Import Strings Chars Convert Necessity Element Parser Dom Spec Render.
-From XSG.Corr Require Import Common.
+From XSG.Corr Require Import Common Oracles.
 From Coq Require Import String Ascii Uint63 ZArith.
 
 (* ---- 63-bit polynomial hash of a string; the harness computes the same in u64 ---- *)
@@ -53,7 +53,9 @@ Record doccase := {
   dc_docs : list (list node);            (* DOM of each document; [] when the case is raw bytes *)
   dc_events : list (list event);         (* reader events recorded from the bytes of each document *)
   dc_impl : iresult;                     (* parse(D1), extend(D2) ... on the real library *)
-  dc_renders : list (options * int)      (* option values x hash of the real rendering of that tree *)
+  (* option values x hash of the real rendering of that tree x the rendering parsed back
+     into struct definitions (None: not of the expected shape) *)
+  dc_renders : list (options * int * option (list pstruct))
 }.
 
 Definition event_eqb (a b : event) : bool :=
@@ -90,7 +92,7 @@ Definition ev_dom (c : doccase) : bool :=
 (* renderer correspondence, on the implementation's own tree *)
 Definition ev_bytes (c : doccase) : bool :=
   match dc_impl c with
-  | ITree e => forallb (fun '(o, h) => (hash63 (to_serde_struct o e) =? h)%uint63) (dc_renders c)
+  | ITree e => forallb (fun '(o, h, _) => (hash63 (to_serde_struct o e) =? h)%uint63) (dc_renders c)
   | _ => is_nil (dc_renders c)
   end.
 
@@ -98,7 +100,7 @@ Definition ev_bytes (c : doccase) : bool :=
 Definition show_case (c : doccase) :=
   (run_evs (dc_events c),
    match dc_impl c with
-   | ITree e => map (fun '(o, h) => (show (to_serde_struct o e), hash63 (to_serde_struct o e), h)) (dc_renders c)
+   | ITree e => map (fun '(o, h, _) => (show (to_serde_struct o e), hash63 (to_serde_struct o e), h)) (dc_renders c)
    | _ => [] end).
 
 (* ---- oracles ---- *)
@@ -111,4 +113,48 @@ Definition or_exact (c : doccase) : bool :=
     | ITree e, Some x => element_eqb (sort_tree e) x
     | _, _ => false
     end
+  else true.
+
+(* the rendered structs mirror the implementation's tree: one field per attribute / text /
+   child with the right Option / Vec / String typing, one struct per non-String position *)
+Definition or_reflects (c : doccase) : bool :=
+  match dc_impl c with
+  | ITree e => forallb (fun '(o, _, p) => match p with Some ps => reflects_b o e ps | None => false end)
+                       (dc_renders c)
+  | _ => true
+  end.
+
+(* C04 *)
+Definition names_ok_char (c : chr) : bool := xid_continue c || (c =? 45) || (c =? 46) || (c =? 58).
+Fixpoint letter_before_digit (x : str) : bool :=
+  match x with
+  | [] => false
+  | c :: r => if a_digit c then false else if xid_start c then true else letter_before_digit r
+  end.
+Definition name_ok (x : str) : bool :=
+  forallb names_ok_char x && forallb in_sigma x && letter_before_digit x.
+Fixpoint tree_names_ok (e : element) : bool :=
+  match e with
+  | Elem n _ _ _ at_ ch _ =>
+      name_ok n && forallb (fun a => name_ok (snd a)) at_
+      && (fix go (cs : list (nec * element)) : bool :=
+            match cs with [] => true | c :: r => tree_names_ok (snd c) && go r end) ch
+  end.
+Definition in_hyp_names (c : doccase) : bool :=
+  match dc_impl c with ITree e => tree_names_ok e | _ => false end.
+Definition or_wf (c : doccase) : bool :=
+  if in_hyp_names c then
+    forallb (fun '(_, _, p) => match p with Some ps => wf_b ps | None => false end) (dc_renders c)
+  else true.
+
+(* C01 *)
+Definition in_hyp_admits (c : doccase) : bool :=
+  in_hyp_docs c && match dc_impl c with ITree e => clash_free_tree e | _ => false end.
+Definition or_admits (c : doccase) : bool :=
+  if in_hyp_admits c then
+    forallb (fun '(o, _, p) =>
+               negb (str_eqb (attribute_prefix o) (s "@"))
+               || match p with
+                  | Some ps => forallb (admits_b o ps) (dc_docs c)
+                  | None => false end) (dc_renders c)
   else true.
